@@ -126,7 +126,10 @@ def _check_iso9660_filename(fullname, interchange_level):
     # found ISOs in the wild (FreeBSD 10.1 amd64) that do not have any version
     # number.  Allow for this.
 
-    if version != b'' and (int(version) < 1 or int(version) > 32767):
+    # The version is a string of digits (Ecma-119 7.5.1).  int() on its own
+    # raises ValueError for other characters, and accepts signs, blanks and
+    # underscores.
+    if version != b'' and (not version.isdigit() or int(version) < 1 or int(version) > 32767):
         raise pycdlibexception.PyCdlibInvalidInput('ISO9660 filenames must have a version between 1 and 32767')
 
     # Ecma-119 section 7.5.1 specifies that filenames must have at least one
